@@ -19,7 +19,7 @@ print(f"""You are helping evaluate how well a (separately built, hidden from you
 Work ONLY inside the scratch git worktree {d} (a worktree of the repository at /repo). Never modify /repo itself. Never read or write anything under /verif. The sandbox has no network.
 
 Setup (run first): 
-  git -C /repo worktree add --detach {d} HEAD && rsync -a --exclude .git /repo/ {d}/ && cd {d} && ./configure >/dev/null 2>&1 && make clean >/dev/null 2>&1 && make -j8 >/dev/null 2>&1
+  git -C /repo worktree add --detach {d} HEAD && rsync -a --exclude .git /repo/ {d}/ && cd {d} && git checkout -- . && ./configure >/dev/null 2>&1 && make clean >/dev/null 2>&1 && make -j8 >/dev/null 2>&1
 The existing test suite is `make check -j8` in {d} (about 1-2 minutes). On the unmodified tree it gives 82 PASS and 1 FAIL (tests/upipe_m3u_reader_test.sh always fails; ignore it). {TSNOTE}
 
 The semantic property to break:
